@@ -306,3 +306,75 @@ def run_f5(ctx, P, maps, rule="F5.key-normalised", only_fns=None, floor=None):
     if floor is not None:
         ctx.floor(rule, n, floor, "keyed accesses of %s" % ",".join(sorted(maps)))
     return n
+
+
+# ------------------------------------------------------------------------------------------------
+def _closure_item_is_table_key(P, norm, cf, alt):
+    """`alt` is (the key part of) the item a closure receives from an iterator over one of the lower-cased table maps:
+    `my_services.iter().find(|(k, _v)| .. k ..)`"""
+    if not cf.is_closure:
+        return False
+    base = alt
+    saw_key = False
+    while base[0] in ("field", "deref", "ref", "call") and (base[0] != "call" or (len(base[2]) >= 1 and strip_generics(base[1]).rsplit("::", 1)[-1] in ("as_str", "deref", "as_ref", "borrow", "clone"))):
+        if base[0] == "field" and base[2] in (0, "0"):
+            saw_key = True
+        base = base[1] if base[0] != "call" else base[2][0]
+    if base[0] != "param" or base[1] < 2 or not saw_key:
+        return False
+    parent = P.fns.get(cf.j.get("parent") or "")
+    if parent is None:
+        return False
+    tr = tracer(P, parent)
+    for b, t in parent.calls():
+        for ai, a in enumerate(t["args"][1:], 1):
+            e = tr.operand(a, endpos(parent, b))
+            if any(x[0] == "closure" and x[1] == cf.name for x in walk(e)):
+                recv = tr.operand(t["args"][0], endpos(parent, b))
+                return norm._from_table_map(recv)
+    return False
+
+
+def check_map_key_consistency(ctx, P, rule, field, owner):
+    """every key that reaches <owner>.<field> (a HashMap keyed by names) has the same spelling discipline: either all
+    are lower-cased, or none is.  A map written under the registered spelling and read under the lower-cased one (or
+    the reverse) silently misses for every name with a capital letter.  Keys that arrive through a parameter are
+    judged at each call site."""
+    from .lib import arg_expr
+    from .f4 import _param_alternatives, _live
+    norm = Normalised(P)
+    seen = []
+    for f in P.lib_fns():
+        if not _live(P, f):
+            continue
+        tr = tracer(P, f)
+        for b, t in f.calls():
+            n = cname(t)
+            if "HashMap" not in n and "hash_map" not in n:
+                continue
+            m = method(n)
+            if m not in KEYED or len(t["args"]) < 2:
+                continue
+            recv = tr.operand(t["args"][0], endpos(f, b))
+            if not expr_mentions_field(recv, field, owner):
+                continue
+            key = tr.operand(t["args"][1], endpos(f, b))
+            for (f2, alt) in _param_alternatives(P, f, key):
+                why = []
+                low = norm.ok(f2, alt, 0, why) or _closure_item_is_table_key(P, norm, f2, alt)
+                seen.append((f, b, m, f2, alt, low))
+    lows = [x for x in seen if x[5]]
+    exact = [x for x in seen if not x[5]]
+    ctx.floor(rule, len(seen), 4, "keys reaching %s.%s" % (owner, field))
+    minority = lows if len(lows) <= len(exact) else exact
+    majority_is = "the registered spelling" if minority is lows else "lower case"
+    if not lows or not exact:
+        ctx.ob(rule, "%s.%s" % (owner, field), True, "", "all %d keys reaching %s.%s use %s" % (len(seen), owner, field, "lower case" if lows else "the spelling the names were registered with"))
+        return
+    k = 0
+    for (f, b, m, f2, alt, low) in minority:
+        k += 1
+        label = f2.short if not f2.is_closure else "%s::%s" % ((P.fns[f2.parent].short if f2.parent in P.fns else "?"), f2.short)
+        ctx.ob(rule, "%s.%s|%s#%d" % (owner, field, label, k), False, where(f2, f2.loc() and b if f2 is f else 0) if False else f.loc(b),
+               "%s.%s is keyed by %s in %d place(s), but this key (%s, passed from %s) is %s: the lookup misses for every name that has a "
+               "capital letter" % (owner, field, majority_is, len(seen) - len(minority), show(alt)[:70], f2.short, "lower-cased" if low else "not lower-cased"))
